@@ -9,7 +9,7 @@
 //	                                  | var:G:key | var:P:req:var | var:Q:req:var
 //	   post = - | pp[+pp...]    pp   = J:var:field | H:var | A:code | B
 //	   tmpl = - | E | R:req
-//	scens  = scen[;scen...]     scen = name,weight|-,hexshoot[:hexshoot...]
+//	scens  = scen[;scen...]     scen = name,weight|-,hexshoot[:hexshoot...][,min_waiting_time ms]
 //	script = - | k:act[,k:act...]   act = s<code> | g | t | n | m | h
 package a15
 
@@ -41,6 +41,7 @@ type Scen struct {
 	Weight    int64
 	HasWeight bool
 	Shoots    []string
+	MinWait   int64 // min_waiting_time in ms; 0 = not written
 }
 
 type Table struct {
@@ -123,6 +124,9 @@ func ParseScens(s string) []Scen {
 			for _, h := range strings.Split(f[2], ":") {
 				sc.Shoots = append(sc.Shoots, string(vh.UnHex(h)))
 			}
+		}
+		if len(f) > 3 {
+			sc.MinWait, _ = strconv.ParseInt(f[3], 10, 64)
 		}
 		out = append(out, sc)
 	}
@@ -207,6 +211,9 @@ func (s Spec) YAML(prefix string) []byte {
 		}
 		if sc.HasWeight {
 			x["weight"] = sc.Weight
+		}
+		if sc.MinWait != 0 {
+			x["min_waiting_time"] = sc.MinWait
 		}
 		scens = append(scens, x)
 	}
